@@ -126,6 +126,10 @@ func VerifC18Template() {
 	mapper.Scope["TargetKind"] = tScope
 	target := map[string]interface{}{"apiVersion": "example.com/v1", "kind": "TargetKind", "metadata": map[string]interface{}{"name": "target"}}
 	md := target["metadata"].(map[string]interface{})
+	// what the template renders into the target: a label, an annotation and a payload field
+	md["labels"] = map[string]interface{}{"tier": "rendered"}
+	md["annotations"] = map[string]interface{}{"note": "rendered"}
+	target["spec"] = map[string]interface{}{"value": "rendered"}
 	if tNS != "" {
 		md["namespace"] = tNS
 	}
@@ -145,6 +149,10 @@ func VerifC18Template() {
 		e.SetName("target")
 		e.SetNamespace("ns")
 		e.SetResourceVersion("44")
+		// an earlier render (of other source values) plus a third party's own label and annotation
+		e.SetLabels(map[string]string{"tier": "rendered-earlier", "foreign": "keep"})
+		e.SetAnnotations(map[string]string{"note": "rendered-earlier", "foreign": "keep"})
+		e.Object["spec"] = map[string]interface{}{"value": "rendered-earlier"}
 		cache.Put(e)
 	}
 	c.Put(ot)
@@ -223,7 +231,11 @@ func VerifC18Template() {
 		w := targetWrites[0]
 		labels, _ := w.U().GetLabels()[constants.DynamicCacheLabel]
 		verifrt.Assert(w.Key.Namespace == "ns" && labels == "True", "C18/target-forced-into-namespace-and-labelled")
+		spec, _ := w.U().Object["spec"].(map[string]interface{})
+		verifrt.Assert(spec["value"] == "rendered" && w.U().GetLabels()["tier"] == "rendered" && w.U().GetAnnotations()["note"] == "rendered",
+			"C18/target-equals-the-current-render")
 		if targetExists {
+			verifrt.Assert(w.U().GetLabels()["foreign"] == "keep" && w.U().GetAnnotations()["foreign"] == "keep", "C18/foreign-labels-and-annotations-kept")
 			verifrt.Assert(w.Verb == "update" && w.U().GetResourceVersion() == "44", "C18/existing-target-updated-with-its-resourceVersion")
 		} else {
 			verifrt.Assert(w.Verb == "create", "C18/missing-target-created")
